@@ -590,10 +590,7 @@ def generate_expr(rng, tier, scale=1):
 
     def routed(prog):
         if prog["k"] == "bin":
-            rs = b.routes_for_nodes(prog["d"], prog["s"], prog["o"])
-            if prog["o"]["k"] == "scalar" and isinstance(prog["o"]["c"], dict) and "B" in prog["o"]["c"]:
-                # `Boom <op> s` would raise in Boom's own method before python ever tries the Stream's reflected one
-                rs = [r for r in rs if r == "direct" or (r == "syntax" and not b.base_of(prog["d"])[1])]
+            rs = safe_routes(prog)
             return dict(prog, route=rng.choice(rs))
         if prog["k"] == "un":
             return dict(prog, route=rng.choice(["direct", "syntax"]))
@@ -660,13 +657,29 @@ def generate_expr(rng, tier, scale=1):
                 o = leaf(rng.choice(["list", "tuple", "gen"]), elems(pool, rng.choice([2, 4, 6])))
             else:
                 o = tree(dpt - 1)
-            return {"k": "bin", "d": d, "s": tree(dpt - 1), "o": o}
+            s_ = tree(dpt - 1)
+            if base in ("pow", "lshift") and not (s_["k"] == "stream1" and o["k"] in ("scalar", "iterable", "stream1")):
+                d = rng.choice(safe_bin)          # (towers of powers / shifts of computed values: astronomically large ints)
+            return {"k": "bin", "d": d, "s": s_, "o": o}
         prog = tree(rng.choice([2, 3, 3, 4] if tier == "quick" else [2, 3, 4, 5]))
         if prog["k"] == "stream1":
             continue
         prog = _route_all(prog, rng)
         cases.append(expr_case(prog, rng.choice([5, 8, 12]), rng, fam="exc:" + pool, shape="tree"))
     return cases
+
+
+def safe_routes(prog):
+    """ the routes python's dispatch really ends in THIS dunder with THESE operands """
+    b = B()
+    rs = b.routes_for_nodes(prog["d"], prog["s"], prog["o"])
+    c = prog["o"].get("c") if prog["o"]["k"] == "scalar" else None
+    if isinstance(c, dict) and "B" in c:
+        # `Boom <op> s` would raise in Boom's own method before python ever tries the Stream's reflected one
+        rs = [r for r in rs if r == "direct" or (r == "syntax" and not b.base_of(prog["d"])[1])]
+    if isinstance(c, dict) and "F" in c and prog["d"] == "__rpow__":
+        rs = ["direct"]       # Fraction.__pow__(x, unknown) computes float(x) ** unknown: the Stream meets a float scalar
+    return rs
 
 
 def _route_all(node, rng):
@@ -678,7 +691,7 @@ def _route_all(node, rng):
         if ch in q and isinstance(q[ch], dict):
             q[ch] = _route_all(q[ch], rng)
     if q["k"] == "bin":
-        q["route"] = rng.choice(b.routes_for_nodes(q["d"], q["s"], q["o"]))
+        q["route"] = rng.choice(safe_routes(q))
     elif q["k"] == "un":
         q["route"] = rng.choice(["direct", "syntax"])
     return q
